@@ -127,10 +127,10 @@ func runC03(c *Ctx) {
 				isCW := false
 				switch x := p.resolve(st.Val).(type) {
 				case *ssa.Field:
-					isCW = fieldOfField(x).Name() == "cellWidth"
+					isCW = fieldOfField(x).Name() == anchorFieldName("texttable", "dimensions", "cellWidth")
 				case *ssa.UnOp:
 					if f, _ := loadedField(x); f != nil {
-						isCW = f.Name() == "cellWidth"
+						isCW = f.Name() == anchorFieldName("texttable", "dimensions", "cellWidth")
 					}
 				}
 				// guarded by new > old on the same element, or a header initialisation (first pass over headers)
@@ -299,7 +299,7 @@ func runC03(c *Ctx) {
 				if iff, ok := in.(*ssa.If); ok {
 					for _, cs := range pf.condConstraints(iff.Cond, true) {
 						for t := range cs.e.coef {
-							if strings.Contains(t, "colWidths") && strings.HasPrefix(t, "len(") {
+							if strings.Contains(t, anchorFieldName("texttable/decoration", "emitter", "colWidths")) && strings.HasPrefix(t, "len(") {
 								sg.overCols = true
 							}
 						}
